@@ -1108,9 +1108,9 @@ Section MaskLoop.
   Qed.
 
   Lemma masked_pad_honest m c pad :
-    (nb < m)%nat -> okrow nb pad -> masked_pad (repeat nb m) c pad = ROk (mask_bytes c pad).
+    (nb < m)%nat -> okrow nb pad -> masked_pad_v0 (repeat nb m) c pad = ROk (mask_bytes c pad).
   Proof.
-    intros L [Lp Wp]. unfold masked_pad. rewrite mask_stop_repeat by lia.
+    intros L [Lp Wp]. unfold masked_pad_v0. rewrite mask_stop_repeat by lia.
     rewrite Lp, Nat.leb_refl, <- Lp, firstn_all, skipn_all, app_nil_r. reflexivity.
   Qed.
 End MaskLoop.
@@ -1151,10 +1151,10 @@ Section AdditiveOTProofs.
     unfold additive_send_one. destruct (sc2 (fst v)) as [s0 s1], (sc2 (snd v)) as [p0 p1]. reflexivity.
   Qed.
 
-  (* AdditiveOT, honest run on top of a correct extended OT, any batch size > nb:
+  (* AdditiveOT, honest run on top of a correct extended OT, ANY batch size:
      the receiver accepts and  send[j] + recv[j] = c_j * alpha  in both components *)
   Theorem additive_ot_sum alpha choices V VC :
-    length V = (8 * length choices)%nat -> (nb < length V)%nat ->
+    length V = (8 * length choices)%nat ->
     (forall j, (j < length V)%nat ->
        nth j VC [] = (if bit_at j choices then snd else fst) (nth j V ([], []))) ->
     exists recv,
@@ -1162,7 +1162,7 @@ Section AdditiveOTProofs.
       additive_check_from q 0 alpha choices (snd (additive_send q nb sc2 alpha V)) recv = true /\
       Forall (fun r => 0 <= fst r < q /\ 0 <= snd r < q) recv.
   Proof.
-    intros LV Lnb HVC. unfold additive_send. cbn [fst snd]. rewrite !map_map.
+    intros LV HVC. unfold additive_send. cbn [fst snd]. rewrite !map_map.
     set (CP := map (fun x => fst (additive_send_one q nb sc2 alpha x)) V).
     set (send := map (fun x => snd (additive_send_one q nb sc2 alpha x)) V).
     set (g := fun j : nat =>
@@ -1182,23 +1182,17 @@ Section AdditiveOTProofs.
       rewrite (nth_indep _ (0, 0) (snd (additive_send_one q nb sc2 alpha ([], [])))) by now rewrite map_length.
       rewrite (map_nth (fun x => snd (additive_send_one q nb sc2 alpha x))).
       now rewrite additive_send_one_spec. }
-    assert (Lens0 : map (fun p : bytes * bytes => length (fst p)) CP = repeat nb (length V)).
-    { rewrite <- LCP. apply map_const_repeat. intros x Hx. unfold CP in Hx.
-      apply in_map_iff in Hx as (v & <- & _). rewrite additive_send_one_spec. cbn [fst]. apply be_bytes_length. }
-    assert (Lens1 : map (fun p : bytes * bytes => length (snd p)) CP = repeat nb (length V)).
-    { rewrite <- LCP. apply map_const_repeat. intros x Hx. unfold CP in Hx.
-      apply in_map_iff in Hx as (v & <- & _). rewrite additive_send_one_spec. cbn [fst snd]. apply be_bytes_length. }
     exists (map g (seq 0 (8 * length choices))). split; [|split].
     3: { apply Forall_forall. intros r Hr. apply in_map_iff in Hr as (j & <- & _).
          unfold g. cbn [fst snd]. split; apply zadd_range, Hq. }
-    - unfold additive_recv. apply res_map_ok. intros j Hj. apply in_seq in Hj.
-      assert (Lj : (j < length V)%nat) by lia.
-      unfold additive_recv_one. unfold bytes, byte in *. rewrite Lens0, Lens1.
+    - unfold additive_recv.
+      replace (length CP =? 8 * length choices)%nat with true by (symmetry; apply Nat.eqb_eq; llia).
+      cbn [negb]. apply res_map_ok. intros j Hj. apply in_seq in Hj.
+      assert (Lj : (j < length V)%nat) by llia.
+      unfold additive_recv_one, masked_pad. unfold bytes, byte in *.
       destruct (sc2 (nth j VC [])) as [v0 v1] eqn:Ev.
-      destruct (Nat.leb_spec (length CP) j) as [L|_]; [lia|].
       specialize (NCP j Lj). rewrite additive_send_one_spec in NCP. cbn [fst] in NCP.
-      rewrite !masked_pad_honest by (try exact Lnb; rewrite NCP; apply scalar_marshal_ok).
-      cbn [res_bind]. unfold g. rewrite Ev. cbn [fst snd]. rewrite NCP. cbn [fst snd].
+      unfold g. rewrite Ev. cbn [fst snd]. rewrite NCP. cbn [fst snd].
       destruct (bit_at j choices).
       + rewrite !mask_bytes_true by apply be_bytes_wf.
         rewrite !unmarshal_marshal by apply zadd_range, Hq.
@@ -1223,7 +1217,7 @@ Section AdditiveOTProofs.
   (* the batch sizes the masking loop cannot handle: every honest run with 0 < batch <= nb panics *)
   Theorem additive_small_batch_panics alpha choices V VC :
     length V = (8 * length choices)%nat -> (0 < length V <= nb)%nat ->
-    additive_recv q nb sc2 choices VC (fst (additive_send q nb sc2 alpha V)) = RPanic.
+    additive_recv_v0 q nb sc2 choices VC (fst (additive_send q nb sc2 alpha V)) = RPanic.
   Proof using.
     clear Hq Hqnb sc2_range. intros LV Lnb. unfold additive_send. cbn [fst]. rewrite map_map.
     set (CP := map (fun x => fst (additive_send_one q nb sc2 alpha x)) V).
@@ -1231,10 +1225,10 @@ Section AdditiveOTProofs.
     assert (Lens0 : map (fun p : bytes * bytes => length (fst p)) CP = repeat nb (length V)).
     { rewrite <- LCP. apply map_const_repeat. intros x Hx. unfold CP in Hx.
       apply in_map_iff in Hx as (v & <- & _). rewrite additive_send_one_spec. cbn [fst]. apply be_bytes_length. }
-    unfold additive_recv. rewrite <- LV. destruct (length V) as [|n] eqn:En; [lia|].
-    cbn [seq res_map]. unfold additive_recv_one at 1. unfold bytes, byte in *. rewrite Lens0.
+    unfold additive_recv_v0. rewrite <- LV. destruct (length V) as [|n] eqn:En; [lia|].
+    cbn [seq res_map]. unfold additive_recv_one_v0 at 1. unfold bytes, byte in *. rewrite Lens0.
     destruct (sc2 (nth 0 VC [])) as [v0 v1]. rewrite LCP. cbn [Nat.leb].
-    unfold masked_pad at 1. rewrite mask_stop_repeat_panic by lia. reflexivity.
+    unfold masked_pad_v0 at 1. rewrite mask_stop_repeat_panic by lia. reflexivity.
   Qed.
 End AdditiveOTProofs.
 
